@@ -1,6 +1,6 @@
 SPECIFICATION Spec
 CONSTANTS TokBoost = 1
   SubjBoost = 0
-  Fams = {"core1", "extop", "extmix", "fname", "path"}
+  Fams = {"core1", "extop", "extmix", "fname", "fnext", "path"}
 INVARIANTS ModeIrrelevance LiteralLaw EmitInv
 VIEW StateKey
